@@ -97,6 +97,7 @@ class ModelQuantumEngine:
         self.failing_jobs = set(failing_jobs)
         self.streams: List[Stream] = []
         self.open_failures = 0
+        self.created_by_unary = set()           # jobs created through the unary create_quantum_job RPC
         self.unary_fault_spread = False          # at most one injected failure in a row per (rpc, target)
         self._last_unary_failed: Dict = {}
         self.processed_then_failed: List = []    # unary RPCs whose effect took place but whose reply was a 5xx
@@ -489,6 +490,7 @@ class ModelQuantumEngine:
             raise gexc.Conflict(f"job {jname} already exists")
         job = self._new_job(jname)
         self.jobs[jname] = job
+        self.created_by_unary.add(jname)
         self.ctx.event("job-created", jname.rsplit("/", 1)[-1], "unary")
         return self._job_proto(job)
 
